@@ -148,7 +148,7 @@ def stepEv {S : Type} (g : Gen S) (t : ToolPhases) (c : RunCmd) (h : Hidden S) (
     if guardFires (seedTy t) gd (argsSeed t c.seed) then
       { st with obs := { st.obs with headerSeed := argsSeed t c.seed } }
     else st
-  | .headerCmdline => { st with obs := { st.obs with headerCmdline := true } }
+  | .headerCmdline _ => { st with obs := { st.obs with headerCmdline := true } }
   | .output _ => st
 
 def isOutput : Ev → Bool | .output _ => true | _ => false
@@ -182,7 +182,7 @@ def taintStep (t : ToolPhases) (det : Bool) : Ev → Option Bool
   | .transforms _ => if det then some det else none
   | .shuffle => if det then some det else none
   | .headerSeed gd v => if gd.known && v == "args.seed" then some det else none
-  | .headerCmdline => some det
+  | .headerCmdline pre => if pre == "?" then none else some det
   | .output _ => some det
 
 def taintFrom (t : ToolPhases) : Bool → List Ev → Bool
@@ -249,21 +249,21 @@ def traceOf (t : ToolPhases) (c : RunCmd) : List TraceTok :=
 def tableD2 : ToolPhases :=
   ⟨"cnfgen-D2", some ⟨["--seed", "-S"], "int", "None", "store", true, false, false⟩, true,
    [.parse "parse_command_line", .seed .isNotNone .argsSeed, .build "args.generator.build_formula",
-    .transforms "argdict.transformation.transform_cnf", .headerSeed .isNotNone "args.seed", .headerCmdline,
+    .transforms "argdict.transformation.transform_cnf", .headerSeed .isNotNone "args.seed", .headerCmdline "cnfgen ",
     .output "to_file"]⟩
 
 /-- cnfgen before D1 was repaired: `if args.seed:` -/
 def tableD1 : ToolPhases :=
   ⟨"cnfgen-D1", some ⟨["--seed", "-S"], "int", "None", "store", true, false, false⟩, true,
    [.parse "parse_command_line", .seed .truthy .argsSeed, .build "args.generator.build_formula",
-    .transforms "argdict.transformation.transform_cnf", .headerSeed .truthy "args.seed", .headerCmdline,
+    .transforms "argdict.transformation.transform_cnf", .headerSeed .truthy "args.seed", .headerCmdline "cnfgen ",
     .output "to_file"]⟩
 
 /-- `random.seed` moved after the build, no seeding action -/
 def tableLate : ToolPhases :=
   ⟨"cnfgen-late", some ⟨["--seed", "-S"], "int", "None", "store", true, false, false⟩, true,
    [.parse "parse_command_line", .build "args.generator.build_formula", .seed .isNotNone .argsSeed,
-    .transforms "argdict.transformation.transform_cnf", .headerSeed .isNotNone "args.seed", .headerCmdline,
+    .transforms "argdict.transformation.transform_cnf", .headerSeed .isNotNone "args.seed", .headerCmdline "cnfgen ",
     .output "to_file"]⟩
 
 end Cnfgen.Cli
